@@ -145,6 +145,9 @@ func (c *Ctx) rangeCompute(t *Term) srng {
 		return full
 	case OURem, OUDiv:
 		a, b := c.rangeOf(t.Args[0]), c.rangeOf(t.Args[1])
+		if t.Op == OURem && b.lo > 0 && a.lo < 0 {
+			return srng{0, b.hi - 1} // an unsigned remainder is below the (positive) divisor
+		}
 		if a.lo >= 0 && b.lo > 0 {
 			if t.Op == OURem {
 				hi := b.hi - 1
